@@ -27,14 +27,14 @@ var c05Cache = []int{1, 2, 3, 8, 64, 0}
 func init() {
 	Registry["C05"] = &Prop{
 		Plan: func(tier string) Plan {
-			return Plan{Level: "exploration", NCases: pick(tier, 120, 3000), Batch: 6, CaseTimeout: 180,
+			return Plan{Level: "exploration", NCases: pick(tier, 120, 9000), Batch: 6, CaseTimeout: 180,
 				Rule: "case kinds: (stress) one writer issuing successful and failing writes over 4 prefixes while 4-10 watchers register with start revisions {0, below oldest cached, oldest, inside, newest, newest+1, far future}, event-cache sizes {1,2,3,8,64,default} (ring wraps under live watches), consumers fast/slow/stalled-then-resumed; " +
 					"(placement) a hook blocks the registering watcher after subscription or after the cache read until exactly k more writes were committed, or blocks the sequencer before the cache insert / before the broadcast while a watcher registers; " +
 					"(overflow) a stalled consumer until the 100+10000 batch buffers are full, then the removal of the slow subscriber is held at its entry hook while the consumer frees one slot and one more batch is fanned out; also the same without any hook. " +
 					"oracle per watcher: received events are a prefix of E (acknowledged successful writes with rev>=S under P, by revision) with exact kind/key/value/prev-kv; strictly increasing; an open stream equals E through an acknowledged sentinel; refusal is a violation only for S in {0, inside the cached window, newest+1} at a quiescent registration. " +
 					"non-trivial = case in which >=1 watcher registered while writes were in flight or placed by a hook, and >=1 failed write and >=1 delete occurred; distinct by (kind, cache size, placement, per-watcher delivered-count vector)",
 				Assumptions: []string{"ground truth E is built from acknowledged write responses only", "watchdog expiry alone is inconclusive; a sentinel arriving after a gap decides without a clock"},
-				MinConcl:    pick(tier, 90, 2500)}
+				MinConcl:    pick(tier, 90, 7000)}
 		},
 		Name: func(c *harness.Case) string {
 			switch k := c.Index % 12; {
